@@ -64,8 +64,8 @@ def build(is4040):
 
 
 ISAS = [
-    Isa("4004", "4004", build(False), "intel", slot=8, base=0x100, maxaddr=0xfff, offsets=[0, 6],
+    Isa("4004", "4004", build(False), "intel", pcsym="$", slot=8, base=0x100, maxaddr=0xfff, offsets=[0, 6],
         page_end=(256, 0xFE), golden=[("t_4004", {"4004": True})]),
-    Isa("4040", "4040", build(True), "intel", slot=8, base=0x100, maxaddr=0xfff, offsets=[0, 6],
+    Isa("4040", "4040", build(True), "intel", pcsym="$", slot=8, base=0x100, maxaddr=0xfff, offsets=[0, 6],
         page_end=(256, 0xFE), golden=[("t_4004", {"4040": True})]),
 ]
